@@ -1,19 +1,27 @@
 (* pure/Buffered: executable model of anyio.streams.buffered.BufferedByteReceiveStream
-   (src/anyio/streams/buffered.py:30-154 of the pinned tree).  Definitions only; proofs are in BufferedProofs.v.
+   (src/anyio/streams/buffered.py:30-172 of HEAD = pinned tree + fixes F27 F28 F29).  Definitions only; proofs are in
+   BufferedProofs.v.  Every transition function takes a flag `p`: false = HEAD (what `step` uses), true = the tree
+   before the three fixes (kept for the `_refuted_pinned` witnesses).
 
    Bytes are integers (Z, 0..255 in every generated case; nothing in the model depends on the range).
 
    The wrapped stream is DATA: `src` is the list of chunks it still holds, [] = end of stream.
-     * KObject: an ObjectReceiveStream[bytes]; receive() delivers the next chunk whole, whatever its size.
+     * KObject: an ObjectReceiveStream[bytes]; receive() delivers the next item whole, whatever its size; items may be
+                EMPTY (e.g. TextSendStream.send("") puts b"" on a memory object stream).
      * KByte:   a ByteReceiveStream; receive(max_bytes) delivers the first min(max_bytes, |chunk|) bytes of the
                 next chunk and keeps the remainder (if any) as the next chunk.
        Assumed contract of a real byte stream: 1 <= |result| <= max_bytes, EndOfStream only at the end.  For a given
        call sequence every behaviour of such a stream is reproduced by taking as `src` the list of pieces it actually
        returned (each piece fits the max_bytes it was requested with, so `pull` hands it out whole: lemma
-       pull_byte_fits), hence quantifying over all chunk lists covers every contract-honouring byte stream.
-     * Chunks may be empty in the model (a contract violation of the wrapped stream); the theorems that need
-       non-empty chunks say so.
-   The stream never blocks (a chunk or EndOfStream is always available), so every call is one atomic model step.
+       pull_byte_fits), hence quantifying over all chunk lists covers every contract-honouring byte stream.  Empty
+       chunks of a byte stream are a contract violation of the wrapped stream; the one theorem that needs them
+       excluded says so.
+   A call is one model step.  The only thing another task can do to the wrapper while a call is parked in
+   receive_stream.receive() that is modelled is feed_data(): `Until d m fs` carries, for each fetch the call makes, the
+   data fed during that wait (fs = feeds in fetch order, missing = none); it is appended to the buffer before the
+   fetched chunk, also when the fetch ends in EndOfStream.  (A concurrent second reader shrinking the buffer is not
+   modelled.)  Every step also returns the ARRIVAL LOG: the bytes that entered the wrapper during the call, in order
+   (fed data and chunks read); theorem arrival_log_spec pins it to the environment (fetch_arrivals / src).
    aclose()/_closed is outside C16 and not modelled. *)
 From AV Require Import Base.
 
@@ -22,17 +30,17 @@ Inductive kind := KByte | KObject.
 Record st := mk { knd : kind; buf : list Z; src : list (list Z) }.
 
 Inductive op :=
-| Receive (n : Z)                 (* await s.receive(n) *)
-| Exactly (n : Z)                 (* await s.receive_exactly(n) *)
-| Until (d : list Z) (m : Z)      (* await s.receive_until(d, m) *)
-| Feed (d : list Z).              (* s.feed_data(d) *)
+| Receive (n : Z)                                   (* await s.receive(n) *)
+| Exactly (n : Z)                                   (* await s.receive_exactly(n) *)
+| Until (d : list Z) (m : Z) (fs : list (list Z))   (* await s.receive_until(d, m); fs = feed_data during its waits *)
+| Feed (d : list Z).                                (* s.feed_data(d) between calls *)
 
 Inductive res :=
 | RBytes (b : list Z)
 | REnd            (* EndOfStream *)
 | RIncomplete     (* IncompleteRead *)
 | RNotFound       (* DelimiterNotFound *)
-| RValueError     (* ValueError("max_bytes must be a positive integer") *)
+| RValueError     (* ValueError *)
 | RNone           (* feed_data returns None *)
 | RFuel.          (* loop bound of the model exhausted: proved impossible (step_never_out_of_fuel) *)
 
@@ -50,48 +58,64 @@ Definition pull (k : kind) (n : nat) (s : list (list Z)) : option (list Z * list
       end
   end.
 
+(* HEAD, object stream branch of receive(): `chunk = b""; while not chunk: chunk = await receive_stream.receive()` *)
+Fixpoint skip_empty (s : list (list Z)) : option (list Z * list (list Z)) :=
+  match s with
+  | [] => None
+  | c :: r => match c with [] => skip_empty r | _ :: _ => Some (c, r) end
+  end.
+
 (* Python slice bound: b[:n] = firstn (cut n b) b and `del b[:n]` leaves skipn (cut n b) b, also for n < 0 *)
 Definition cut (n : Z) (l : list Z) : nat :=
   if (0 <=? n)%Z then Z.to_nat n else Z.to_nat (Z.of_nat (length l) + n).
 
-(* ---- receive (lines 67-89) ---- *)
-Definition do_receive (s : st) (n : Z) : st * res :=
-  if (n <? 1)%Z then (s, RValueError) else
+(* ---- receive (lines 67-95).  Result: new state, outcome, arrival log ---- *)
+Definition do_receive (p : bool) (s : st) (n : Z) : st * res * list Z :=
+  if (n <? 1)%Z then (s, RValueError, []) else
   match buf s with
   | _ :: _ =>
-      (mk (knd s) (skipn (Z.to_nat n) (buf s)) (src s), RBytes (firstn (Z.to_nat n) (buf s)))
+      (mk (knd s) (skipn (Z.to_nat n) (buf s)) (src s), RBytes (firstn (Z.to_nat n) (buf s)), [])
   | [] =>
       match knd s with
       | KByte =>
           match pull KByte (Z.to_nat n) (src s) with
-          | None => (s, REnd)
-          | Some (c, r) => (mk (knd s) (buf s) r, RBytes c)
+          | None => (s, REnd, [])
+          | Some (c, r) => (mk (knd s) (buf s) r, RBytes c, c)
           end
       | KObject =>
-          match pull KObject default_max (src s) with
-          | None => (s, REnd)
+          match (if p then pull KObject default_max (src s) else skip_empty (src s)) with
+          | None => (mk (knd s) (buf s) [], REnd, [])       (* every (empty) item left was consumed *)
           | Some (c, r) =>
               if (n <? Z.of_nat (length c))%Z
-              then (mk (knd s) (buf s ++ skipn (Z.to_nat n) c) r, RBytes (firstn (Z.to_nat n) c))
-              else (mk (knd s) (buf s) r, RBytes c)
+              then (mk (knd s) (buf s ++ skipn (Z.to_nat n) c) r, RBytes (firstn (Z.to_nat n) c), c)
+              else (mk (knd s) (buf s) r, RBytes c, c)
           end
       end
   end.
 
-(* ---- receive_exactly (lines 91-116): one loop iteration per unit of fuel ---- *)
-Fixpoint exactly_loop (fuel : nat) (s : st) (n : Z) : st * res :=
+(* ---- receive_exactly (lines 97-125): one loop iteration per unit of fuel ---- *)
+Fixpoint exactly_loop (fuel : nat) (s : st) (n : Z) : st * res * list Z :=
   match fuel with
-  | O => (s, RFuel)
+  | O => (s, RFuel, [])
   | S f =>
       let remaining := (n - Z.of_nat (length (buf s)))%Z in
       if (remaining <=? 0)%Z then
-        (mk (knd s) (skipn (cut n (buf s)) (buf s)) (src s), RBytes (firstn (cut n (buf s)) (buf s)))
+        (mk (knd s) (skipn (cut n (buf s)) (buf s)) (src s), RBytes (firstn (cut n (buf s)) (buf s)), [])
       else
         match pull (knd s) (match knd s with KByte => Z.to_nat remaining | KObject => default_max end) (src s) with
-        | None => (s, RIncomplete)
-        | Some (c, r) => exactly_loop f (mk (knd s) (buf s ++ c) r) n
+        | None => (s, RIncomplete, [])
+        | Some (c, r) =>
+            let '(s', out, lg) := exactly_loop f (mk (knd s) (buf s ++ c) r) n in (s', out, c ++ lg)
         end
   end.
+
+(* every pull with max_bytes >= 1 strictly decreases this measure, so the loops never need more iterations *)
+Definition measure (l : list (list Z)) : nat := length l + length (concat l).
+Definition fuel_of (s : st) : nat := S (measure (src s)).
+
+Definition do_exactly (p : bool) (s : st) (n : Z) : st * res * list Z :=
+  if negb p && (n <? 0)%Z then (s, RValueError, [])      (* HEAD: ValueError("nbytes must not be negative") *)
+  else exactly_loop (fuel_of s) s n.
 
 (* ---- bytearray.find(d, off): lowest i >= off with b[i:i+|d|] == d ---- *)
 Fixpoint prefixb (d l : list Z) : bool :=
@@ -111,54 +135,81 @@ Fixpoint find_at (d l : list Z) (i : nat) : option nat :=
 Definition find_from (d : list Z) (off : nat) (l : list Z) : option nat :=
   if length l <? off then None else find_at d (skipn off l) off.
 
-(* ---- receive_until (lines 118-154); `off` is the local variable `offset` ---- *)
-Fixpoint until_loop (fuel : nat) (s : st) (d : list Z) (m : Z) (off : nat) : st * res :=
+(* ---- receive_until (lines 127-172); `off` is the local variable `offset`.  HEAD remembers
+        searched_size = len(buffer) BEFORE the await and derives the offset from it; the pinned tree used len(buffer)
+        AFTER the await, i.e. including what was fed meanwhile ---- *)
+Fixpoint until_loop (p : bool) (fuel : nat) (s : st) (d : list Z) (m : Z) (off : nat) (fs : list (list Z))
+  : st * res * list Z :=
   match fuel with
-  | O => (s, RFuel)
+  | O => (s, RFuel, [])
   | S f =>
       match find_from d off (buf s) with
-      | Some i => (mk (knd s) (skipn (i + length d) (buf s)) (src s), RBytes (firstn i (buf s)))
+      | Some i => (mk (knd s) (skipn (i + length d) (buf s)) (src s), RBytes (firstn i (buf s)), [])
       | None =>
-          if (m <=? Z.of_nat (length (buf s)))%Z then (s, RNotFound) else
-          match pull (knd s) default_max (src s) with      (* receive() without argument, also on a byte stream *)
-          | None => (s, RIncomplete)
+          if (m <=? Z.of_nat (length (buf s)))%Z then (s, RNotFound, []) else
+          let fd := hd [] fs in                          (* feed_data(fd) by another task during the wait *)
+          let b1 := buf s ++ fd in
+          match pull (knd s) default_max (src s) with    (* receive() without argument, also on a byte stream *)
+          | None => (mk (knd s) b1 (src s), RIncomplete, fd)
           | Some (c, r) =>
-              (* offset = max(len(buffer) - delimiter_size + 1, 0): truncated subtraction on nat *)
-              until_loop f (mk (knd s) (buf s ++ c) r) d m (length (buf s) + 1 - length d)
+              (* offset = max(searched_size - delimiter_size + 1, 0): truncated subtraction on nat *)
+              let '(s', out, lg) :=
+                until_loop p f (mk (knd s) (b1 ++ c) r) d m
+                           (length (if p then b1 else buf s) + 1 - length d) (tl fs) in
+              (s', out, fd ++ c ++ lg)
           end
       end
   end.
 
-(* every pull with max_bytes >= 1 strictly decreases this measure, so the loops never need more iterations *)
-Definition measure (l : list (list Z)) : nat := length l + length (concat l).
-Definition fuel_of (s : st) : nat := S (measure (src s)).
-
-Definition step (s : st) (o : op) : st * res :=
+Definition step_gen (p : bool) (s : st) (o : op) : st * res * list Z :=
   match o with
-  | Receive n => do_receive s n
-  | Exactly n => exactly_loop (fuel_of s) s n
-  | Until d m => until_loop (fuel_of s) s d m 0
-  | Feed d => (mk (knd s) (buf s ++ d) (src s), RNone)
+  | Receive n => do_receive p s n
+  | Exactly n => do_exactly p s n
+  | Until d m fs => until_loop p (fuel_of s) s d m 0 fs
+  | Feed d => (mk (knd s) (buf s ++ d) (src s), RNone, d)
   end.
+
+Definition step_log : st -> op -> st * res * list Z := step_gen false.     (* HEAD *)
+Definition step_pinned : st -> op -> st * res * list Z := step_gen true.   (* before F27/F28/F29 *)
+Definition step (s : st) (o : op) : st * res := fst (step_log s o).
 
 Definition init (k : kind) (chunks : list (list Z)) : st := mk k [] chunks.
 
 (* ---- specification vocabulary (used by the theorems; not part of the executable path) ---- *)
 
 (* receive_until without the offset optimisation: always searches the whole buffer *)
-Fixpoint until_naive (fuel : nat) (s : st) (d : list Z) (m : Z) : st * res :=
+Fixpoint until_naive (fuel : nat) (s : st) (d : list Z) (m : Z) (fs : list (list Z)) : st * res * list Z :=
   match fuel with
-  | O => (s, RFuel)
+  | O => (s, RFuel, [])
   | S f =>
       match find_from d 0 (buf s) with
-      | Some i => (mk (knd s) (skipn (i + length d) (buf s)) (src s), RBytes (firstn i (buf s)))
+      | Some i => (mk (knd s) (skipn (i + length d) (buf s)) (src s), RBytes (firstn i (buf s)), [])
       | None =>
-          if (m <=? Z.of_nat (length (buf s)))%Z then (s, RNotFound) else
+          if (m <=? Z.of_nat (length (buf s)))%Z then (s, RNotFound, []) else
           match pull (knd s) default_max (src s) with
-          | None => (s, RIncomplete)
-          | Some (c, r) => until_naive f (mk (knd s) (buf s ++ c) r) d m
+          | None => (mk (knd s) (buf s ++ hd [] fs) (src s), RIncomplete, hd [] fs)
+          | Some (c, r) =>
+              let '(s', out, lg) := until_naive f (mk (knd s) ((buf s ++ hd [] fs) ++ c) r) d m (tl fs) in
+              (s', out, hd [] fs ++ c ++ lg)
           end
       end
+  end.
+
+(* the environment's view of a receive_until that makes k fetches: what arrives, in order (for each fetch the data fed
+   during the wait, then the chunk unless the stream has ended), and what the wrapped stream holds afterwards *)
+Fixpoint fetch_arrivals (k : nat) (kd : kind) (sr : list (list Z)) (fs : list (list Z)) : list Z :=
+  match k with
+  | O => []
+  | S k' =>
+      hd [] fs ++ match pull kd default_max sr with
+                  | None => []
+                  | Some (c, r) => c ++ fetch_arrivals k' kd r (tl fs)
+                  end
+  end.
+Fixpoint fetch_rest (k : nat) (kd : kind) (sr : list (list Z)) : list (list Z) :=
+  match k with
+  | O => sr
+  | S k' => match pull kd default_max sr with None => sr | Some (c, r) => fetch_rest k' kd r end
   end.
 
 (* d occurs in l at index i *)
@@ -169,39 +220,27 @@ Definition occurs (d l : list Z) : Prop := exists i, occurs_at d l i.
 (* bytes removed from the front of the logical stream by a call: its result plus, for receive_until, the delimiter *)
 Definition consumed_of (o : op) (r : res) : list Z :=
   match r with
-  | RBytes b => b ++ match o with Until d _ => d | _ => [] end
+  | RBytes b => b ++ match o with Until d _ _ => d | _ => [] end
   | _ => []
   end.
 
 Definition failed (r : res) : Prop := r = REnd \/ r = RIncomplete \/ r = RNotFound \/ r = RValueError.
 
-(* bytes that left the wrapped stream between two states: the part of concat(src) that is gone *)
-Definition pulled_of (s s' : st) : list Z :=
-  firstn (length (concat (src s)) - length (concat (src s'))) (concat (src s)).
-
-(* bytes that arrived in the wrapper during a step: fed data, or what was pulled from the wrapped stream *)
-Definition arrived_of (s : st) (o : op) (s' : st) : list Z :=
-  match o with Feed d => d | _ => pulled_of s s' end.
-Definition received_of (s : st) (o : op) (s' : st) : list Z :=
-  match o with Feed _ => [] | _ => pulled_of s s' end.
-
 Fixpoint consumed_run (s : st) (ops : list op) : list Z :=
   match ops with
   | [] => []
-  | o :: r => let '(s1, out) := step s o in consumed_of o out ++ consumed_run s1 r
+  | o :: r => let '(s1, out, lg) := step_log s o in consumed_of o out ++ consumed_run s1 r
   end.
+(* everything that entered the wrapper during the run (fed between or during calls, read from the wrapped stream) *)
 Fixpoint arrived_run (s : st) (ops : list op) : list Z :=
   match ops with
   | [] => []
-  | o :: r => let '(s1, out) := step s o in arrived_of s o s1 ++ arrived_run s1 r
-  end.
-Fixpoint received_run (s : st) (ops : list op) : list Z :=
-  match ops with
-  | [] => []
-  | o :: r => let '(s1, out) := step s o in received_of s o s1 ++ received_run s1 r
+  | o :: r => let '(s1, out, lg) := step_log s o in lg ++ arrived_run s1 r
   end.
 
-Definition is_feed (o : op) : bool := match o with Feed _ => true | _ => false end.
+(* ops that feed nothing *)
+Definition no_feed (o : op) : bool :=
+  match o with Feed _ => false | Until _ _ fs => match fs with [] => true | _ => false end | _ => true end.
 Definition chunks_nonempty (l : list (list Z)) : Prop := forall c, In c l -> c <> [].
 
 (* ---- observable output of a step: code, result bytes, the `buffer` property ---- *)
@@ -215,7 +254,8 @@ Definition observe (s : st) (r : res) : list Z :=
   res_code r :: nz (length (res_bytes r)) :: res_bytes r ++ nz (length (buf s)) :: buf s.
 
 (* ---- codec: case = kind :: nchunks :: (len :: bytes)* :: ops
-        op = 0 n | 1 n | 2 m len delimiter-bytes | 3 len bytes ---- *)
+        op = 0 n | 1 n | 2 m len delimiter-bytes | 3 len bytes | 4 m len delimiter-bytes nfeeds (len :: bytes)*
+        (op 2 = receive_until without feeds during the call; cases written before op 4 existed decode unchanged) ---- *)
 Definition take_list (l : list Z) : list Z * list Z :=
   match l with
   | [] => ([], [])
@@ -236,8 +276,14 @@ Fixpoint decode_ops (fuel : nat) (l : list Z) : list op :=
       match l with
       | 0%Z :: n :: r => Receive n :: decode_ops f r
       | 1%Z :: n :: r => Exactly n :: decode_ops f r
-      | 2%Z :: m :: r => let '(d, r') := take_list r in Until d m :: decode_ops f r'
+      | 2%Z :: m :: r => let '(d, r') := take_list r in Until d m [] :: decode_ops f r'
       | 3%Z :: r => let '(d, r') := take_list r in Feed d :: decode_ops f r'
+      | 4%Z :: m :: r =>
+          let '(d, r') := take_list r in
+          match r' with
+          | nf :: r'' => let '(fs, r3) := decode_chunks (zn nf) r'' in Until d m fs :: decode_ops f r3
+          | [] => []
+          end
       | _ => []
       end
   end.
@@ -254,4 +300,11 @@ Definition run_case (c : list Z) : list Z :=
       let '(chunks, r') := decode_chunks (zn nch) r in
       run_obs (init (if zb k then KObject else KByte) chunks) (decode_ops (length r') r')
   | _ => []
+  end.
+
+(* the same case on the tree before F27/F28/F29 (used by the refuted-pinned witnesses only) *)
+Fixpoint run_obs_pinned (s : st) (ops : list op) : list Z :=
+  match ops with
+  | [] => []
+  | o :: r => let '(s1, out, _) := step_pinned s o in observe s1 out ++ run_obs_pinned s1 r
   end.
